@@ -277,11 +277,39 @@ def short(e, depth=0):
 
 # --------------------------------------------------------------------------
 
+def extract_controls(work):
+    """facts for the positive-control units under /verif/controls (compiled with the repo's flags)"""
+    z = ensure_tools()
+    info = json.load(open(os.path.join(work, "units.json")))
+    cdir = os.path.join(VERIF, "controls")
+    files = sorted(os.path.join(cdir, f) for f in os.listdir(cdir) if f.endswith(".cc"))
+    cwork = os.path.join(work, "controls")
+    os.makedirs(cwork, exist_ok=True)
+    db = [{"directory": cwork, "file": f, "arguments": ["clang++"] + info["flags"] + ["-c", f]} for f in files]
+    json.dump(db, open(os.path.join(cwork, "compile_commands.json"), "w"))
+    outs = []
+    for f in files:
+        out = os.path.join(cwork, os.path.basename(f)[:-3] + ".json")
+        if not os.path.exists(out) or os.path.getmtime(out) < max(os.path.getmtime(f), os.path.getmtime(z)):
+            r = subprocess.run([z, "-p", cwork, "--out", out, "--root", REPO + "/", "--root", info["gen"] + "/",
+                                "--root", cdir + "/", f], stdout=subprocess.PIPE, stderr=subprocess.PIPE)
+            if r.returncode != 0:
+                sys.stderr.write(r.stderr.decode()[-2000:])
+                raise Broken("positive control %s failed to parse" % f)
+        outs.append((f, out))
+    info = dict(info)
+    info["units"] = {"LibzwergCore": files, "LibzwergDw": [], "AuxLib": [], "dwgrep": []}
+    return outs, info
+
+
 class Program:
-    def __init__(self, load=True):
+    def __init__(self, load=True, controls=False):
         self.t0 = time.time()
         self.work = prep()
-        outs, self.info = extract(self.work)
+        if controls:
+            outs, self.info = extract_controls(self.work)
+        else:
+            outs, self.info = extract(self.work)
         self.unit_files = outs
         self.funcs = {}
         self.records = {}
@@ -388,7 +416,7 @@ class Program:
         return None
 
     def rel(self, path):
-        for p in (REPO + "/", self.info["gen"] + "/"):
+        for p in (REPO + "/", self.info["gen"] + "/", VERIF + "/"):
             if path.startswith(p):
                 return path[len(p):]
         return path
